@@ -101,14 +101,14 @@ theorem selValue_ok {c : Bool} {d : Nat} {s : Sel} {j i : Int} (hj : 0 ≤ j) (h
 /-- the extent a non-scalar selector contributes -/
 def selExtent (d : Nat) : Sel → Nat
   | .at _ => 1
-  | .range b e s => ((e.resolve d + s - b.resolve d).tdiv s).toNat
+  | .range b e s => ((e.resolve d + s.resolve d - b.resolve d).tdiv (s.resolve d)).toNat
   | .all => d
   | .vec es => es.length
 
 theorem selSize_ok {c : Bool} {d n : Nat} {s : Sel} (h : selSize c d s = .ok n) :
     n = selExtent d s ∧
     (match s with
-     | .range b e st => st ≠ 0 ∧ (n : Int) = (e.resolve d + st - b.resolve d).tdiv st ∧
+     | .range b e st => st.resolve d ≠ 0 ∧ (n : Int) = (e.resolve d + st.resolve d - b.resolve d).tdiv (st.resolve d) ∧
          (c = true → (0 ≤ b.resolve d ∧ b.resolve d < d) ∧ (0 ≤ e.resolve d ∧ e.resolve d < d))
      | _ => True) := by
   cases s with
@@ -117,7 +117,7 @@ theorem selSize_ok {c : Bool} {d n : Nat} {s : Sel} (h : selSize c d s = .ok n) 
   | vec es => simp only [selSize] at h; cases h; exact ⟨rfl, trivial⟩
   | range b e st =>
     simp only [selSize] at h
-    cases hr : updateRange c d 0 b e st with
+    cases hr : updateRange c d 0 b e (st.resolve d) with
     | error x => simp [hr, bind, Except.bind] at h
     | ok r =>
       obtain ⟨inc, m, o⟩ := r
@@ -445,7 +445,7 @@ theorem selValue_adm {c : Bool} {d n : Nat} {s : Sel} {j : Int} (hadm : SelAdm d
     obtain ⟨hb, he⟩ := hadm
     obtain ⟨_, hs, hnn, _⟩ := selSize_ok hn
     have hr := range_elem_inRange hb he hs hnn hj.1 hj.2
-    have hmul : st * j = j * st := Int.mul_comm _ _
+    have hmul : st.resolve d * j = j * st.resolve d := Int.mul_comm _ _
     simp only [selValue, selIndex, getIndex_inRange c hb, bind, Except.bind]
     rw [hmul]
     exact ⟨checkIdx_inRange c hr, hr⟩
